@@ -4,6 +4,10 @@ import itertools
 from sa.sym import Engine, show, show_cond, subterms, C, is_const, PathLimit
 from .common import *
 from .tables import is_true, is_false
+import functools as _ft
+_Engine = Engine
+# these rules look at the closures handed to find / any / for_each / filter themselves (closure and loop form are both handled here)
+Engine = _ft.partial(_Engine, iter_adapters=False)
 
 EXPLANATION = (
     "Static clauses: (R1) the disambiguation decision table of get_disambiguating_chars over the atoms {pawn capture, "
@@ -496,26 +500,30 @@ def r4_source(ctx):
     facts = ctx.facts
     name = AN + 'enumerate_candidate_moves_with_algebraic_notation'
     gen = 'chess::move_generator::MoveGenerator::generate_moves_and_lazily_update_chess_move_effects'
-    fn = facts.need_fn(name)
-    outs = Engine(facts, opaque={gen}).run(name)
+    lab = AN + 'chess_move_to_algebraic_notation'
+    outs = _Engine(facts, opaque={gen, lab}, iter_adapters=True).run(name)
     ctx.touch(name)
-    ok = False
+    ok, okc, n = True, True, 0
     for o in outs:
+        if o.kind != 'backedge':
+            continue
         g = [e for e in o.events if e[0] == 'call' and e[1] == gen]
-        fe = [e for e in o.events if e[0] == 'call' and e[1].endswith('::for_each')]
-        if len(g) == 1 and fe:
-            ok = g[0][2][1] == ('ref', ('der', ('p', 1))) and g[0][2][2] == ('p', 2) and any(s[0] == 'call' and s[1] == gen for s in subterms(fe[0][2][0]))
-    ctx.ob(rule, name, 'labels are computed for the effect-annotated legal moves of (board, player)', ok, expected='generate_moves_and_lazily_update_chess_move_effects(board, player) then label each')
-    clo = facts.closures_of(name)
-    okc = False
-    for c in clo:
-        outs = Engine(facts, opaque={AN + 'chess_move_to_algebraic_notation'}).run(c.name)
-        for o in outs:
-            for e in o.events:
-                if e[0] == 'call' and e[1] == AN + 'chess_move_to_algebraic_notation':
-                    okc = e[2][0] == ('ref', ('der', ('p', 2))) or 'arg2' in show(e[2][0])
-                    okc = okc and 'upvar' in show(e[2][2])
-    ctx.ob(rule, name, 'each move is labelled against the whole candidate list', okc, expected='chess_move_to_algebraic_notation(m, board, &candidate_moves)', nontrivial=False)
+        ls = [e for e in o.events if e[0] == 'call' and e[1] == lab]
+        if not ls:
+            continue
+        n += 1
+        has_gen = lambda t: any(s_[0] == 'call' and s_[1] == gen for s_ in subterms(t))
+        src = iteration_sources(o)
+        ok = ok and len(g) == 1 and g[0][2][1] == ('ref', ('der', ('p', 1))) and g[0][2][2] == ('p', 2) and any(has_gen(x[1]) and not x[2] for x in src)
+        a = ls[0][2]
+        okc = okc and len(ls) == 1 and is_iteration_element(a[0]) and has_gen(a[2]) and strip_refs_t(a[1]) == ('p', 1)
+        push = [e for e in o.events if e[0] == 'call' and e[1].endswith('::push')]
+        okc = okc and len(push) == 1 and push[0][2][1][0] == 'agg' and is_iteration_element(push[0][2][1][4][0][1]) and \
+            any(s_ == ('call', lab, ls[0][2], ls[0][3]) for s_ in subterms(push[0][2][1][4][1][1]))
+    ctx.ob(rule, name, 'labels are computed for the effect-annotated legal moves of (board, player)', ok and n >= 1,
+           expected='generate_moves_and_lazily_update_chess_move_effects(board, player) then label each')
+    ctx.ob(rule, name, 'each move is labelled against the whole candidate list', okc and n >= 1, expected='push((m.clone(), chess_move_to_algebraic_notation(m, board, &candidate_moves)))',
+           nontrivial=False)
 
 
 def run(ctx):
